@@ -95,6 +95,16 @@ def check(prop, tier, seed, out):
                         "virtual TSC clock (hook); the OS-timer path shares the loop code and is not scripted"]
     out.require("conclusive_runs", out.evaluations, 50 if tier == "quick" else 500)
     out.require("distinct_nontrivial", len(out.distinct), 20)
+    if prop in ("C03", "C05"):
+        # end-to-end slice: the same figures through the real runner (options set by attribute-equivalent entry options, groups,
+        # builder, CLI and DIVAN_* variables), judged on the printed samples / iters / time cells and the invocation log
+        from . import treecheck
+        jobs = treecheck.make_jobs("C15" if prop == "C03" else "C20", "quick", seed + 300)
+        if tier == "quick":
+            jobs = jobs[:240]
+        e2e, _, _ = treecheck.run_jobs(prop, jobs, out, want={prop})
+        out.extra["end_to_end"] = e2e
+        out.require("e2e_executions", e2e.get("executions", 0), 200)
     if prop == "C01":
         sanit.c01_sanitizers(tier, seed, out)
     elif prop == "C02":
